@@ -322,8 +322,11 @@ def capacity_rule(t, rid):
     if not anycap: r.bad("cap-missing", None, "no capacity test against max_clients in handle_connection_request")
     for e, br in full:
         other = br["f_edge"] if e == br["t_edge"] else br["t_edge"]
-        den = [a for a in t.aggrs("renetcode::packet::Packet", "ConnectionDenied", h) if a.bb in t.region_from(h, e)]
-        if not den: r.bad("cap-denied", None, "full server does not answer ConnectionDenied")
+        reg = t.region_from(h, e)
+        den = [a for a in t.aggrs("renetcode::packet::Packet", "ConnectionDenied", h) if a.bb in reg]
+        # `Packet::ConnectionDenied.encode(..)` on a temporary is a promoted constant in MIR (no aggregate): accept an encoded reply on the full edge
+        rep = [a for a in t.aggrs("server::ServerResult", "PacketToSend", h) if a.bb in reg and a.bb not in t.region_from(h, other)] if not den else den
+        if not den and not rep: r.bad("cap-denied", None, "full server does not answer ConnectionDenied")
         grow = [g for g in t.effects("pending_clients", {"entry", "insert"}, h)]
         if any(not t.edge_dominates(h, other, g.bb) for g in grow): r.bad("cap-dom", None, "pending session created although the server is full")
     return r
